@@ -144,6 +144,15 @@ def op_unit(vcls, param, w, op):
             mid = V.seq_of_terms([xt, yt], 'list')
             mid.elem = items0.elem
             want = V.concat(V.concat(V.slice_seq(items0, 0, a), mid, 'list'), V.slice_seq(items0, b, None), 'list')
+        elif op == 'setslice_ext':
+            lo, hi = z3.Int('lo'), z3.Int('hi')
+            P.inputs.update(lo=SInt(lo), hi=SInt(hi))
+            x, xt = sym_item(P, items0)
+            out = vc.outcome_of(lambda: I.call(I.getattr_(v, '__setitem__'), [slice(SInt(lo), SInt(hi), 2), [x]], {}))
+            a = V.clamp_index(lo, n0)
+            b = V.clamp_index(hi, n0)
+            want = SSeq(n0, lambda j, at=items0._at: z3.If(V.iv(j) == a, xt, at(j)), 'list', items0.elem)
+            allowed = allowed + (ValueError,)      # the plain list's own error for a size mismatch; nothing may change
         elif op in ('extend', 'iadd'):
             x, xt = sym_item(P, items0)
             y, yt = sym_item(P, items0, 'y')
@@ -222,6 +231,7 @@ def replay_for(vcls, op):
                     'setslice': (lambda: v.__setitem__(slice(lo, hi), [x, y]), lambda: model.__setitem__(slice(lo, hi), [x, y])),
                     'extend': (lambda: v.extend([x, y]), lambda: model.extend([x, y])),
                     'iadd': (lambda: v.__iadd__([x, y]), lambda: model.__iadd__([x, y])),
+                    'setslice_ext': (lambda: v.__setitem__(slice(lo, hi, 2), [x]), lambda: model.__setitem__(slice(lo, hi, 2), [x])),
                     'clear': (lambda: v.clear(), lambda: model.clear()),
                     'reverse': (lambda: v.reverse(), lambda: model.reverse()),
                 }
@@ -230,7 +240,7 @@ def replay_for(vcls, op):
                 call = '%s(%r).%s [i=%d lo=%d hi=%d x=%r y=%r]' % (vcls.__name__, items, op, i, lo, hi, x, y)
                 try:
                     real()
-                except (NotEnoughData, TooMuchData, IndexError):
+                except (NotEnoughData, TooMuchData, IndexError, ValueError):
                     if list(v) != before or v._items_size != len(before) * w:
                         return dict(reproduced=True, call=call[:300], expected='a refused edit changes nothing', key='refused edit changed state',
                                     observed='items %r size %d' % (list(v), v._items_size))
@@ -289,7 +299,7 @@ def compose_unit(vcls, param, w):
     return lambda: (e1.setup(), vc.run_unit('compose', thunk))[1]
 
 
-OPS = ('insert', 'append', 'delitem', 'pop', 'setitem', 'delslice', 'setslice', 'extend', 'iadd', 'clear', 'reverse')
+OPS = ('insert', 'append', 'delitem', 'pop', 'setitem', 'delslice', 'setslice', 'setslice_ext', 'extend', 'iadd', 'clear', 'reverse')
 
 
 def units(tier, seed):
